@@ -21,7 +21,7 @@ TraceSigEv ==
   /\ IsEv("sig")
   /\ LET e == Trace[l]
          f == e.fmt
-         expectFail == e.fail \in {"callback_error", "invalid_type", "unknown_key_id"}
+         expectFail == e.fail \in {"callback_error", "invalid_type", "unknown_key_id", "no_key_name"}
          req ==
            IF expectFail THEN
                 Cl(~e.built, "C10.failed_signing_not_reported_as_built")
